@@ -1576,7 +1576,7 @@ func C17(c *sim.Ctx) {
 	// poll complete, so that every run ends with an equality check of an up-to-date client.
 	raise := c.T.Chance("tail.raise", 3, 4)
 	stage := 0 // 0 draining, 1 waiting for the final poll to be answered, 2 done
-	idleTicks := 0
+	idleTicks, tailRetries := 0, 0
 	for i := 0; i < 400 && stage < 2; i++ {
 		synctest.Wait()
 		observe()
@@ -1589,10 +1589,19 @@ func C17(c *sim.Ctx) {
 					c.Broken("tail: queue not empty at the final poll")
 				}
 				w.answerOK(r)
+				tailRetries = 0
 				if final {
 					stage = 2
 				}
 			case phRetry:
+				// In the tail every call is answered the moment it is seen, so a retry can only be owed to
+				// the last failure from before the tail. A client that keeps abandoning its own calls here
+				// (e.g. on a deadline that expired long ago) never gets an answer again.
+				tailRetries++
+				if tailRetries >= 6 {
+					c.Fail("liveness", "provider_call_keeps_failing_in_the_fault_free_tail_although_every_call_is_answered_at_once",
+						"%d consecutive retry waits in the fault-free tail: the client's %s call fails again and again although the scripted node answers every call the moment it arrives (last call ok=%v)", tailRetries, w.lastKind, w.lastOK)
+				}
 				d := w.cfg.resub - time.Since(w.lastFailAt)
 				if d < 0 {
 					d = 0
